@@ -336,6 +336,8 @@ pub struct ExecCfg {
     /// phase of t0 on the server's 100 ms deadline grid, in µs
     pub phase_us: u64,
     pub points_on: bool,
+    /// offer the 'stall here while everybody else runs' alternative at every point
+    pub stalls_on: bool,
     pub max_steps: usize,
     /// run the push loop with this interval
     pub push_interval_ms: Option<u64>,
@@ -348,7 +350,7 @@ pub struct ExecCfg {
 
 impl Default for ExecCfg {
     fn default() -> Self {
-        ExecCfg { caps: (0, 0), phase_us: 0, points_on: true, max_steps: 20_000, push_interval_ms: None, phase_choices: vec![], uptime_choices_ms: vec![] }
+        ExecCfg { caps: (0, 0), phase_us: 0, points_on: true, stalls_on: true, max_steps: 20_000, push_interval_ms: None, phase_choices: vec![], uptime_choices_ms: vec![] }
     }
 }
 
@@ -415,6 +417,7 @@ where
 {
     let shared: Sh = Arc::new(Mutex::new(Shared::new(prefix.to_vec(), cfg.caps)));
     shared.lock().unwrap().points_on = cfg.points_on;
+    shared.lock().unwrap().stalls_on = cfg.stalls_on;
     let want = if cfg.phase_choices.is_empty() {
         cfg.phase_us % 100_000
     } else {
